@@ -145,7 +145,7 @@ def check(case: Dict[str, Any]) -> Outcome:
             return httpx.Response(200, json={"jsonrpc": "2.0", "id": rid, "result": {}})
         mode = r["mode"]
         delta = r.get("delta", 0.0)
-        resp = {"jsonrpc": "2.0", "id": rid, "result": {"for": rid, "t": "é\U0001F600"}}
+        resp = {"jsonrpc": "2.0", "id": rid, "result": {"for": rid, "t": "é\U0001F600", "ls": "a\u2028b\u2029c\u0085d\x0bf\x0cg"}}
         if mode == "200-body":
             return httpx.Response(200, json=resp)
         if mode == "200-body-error":
@@ -427,7 +427,7 @@ def cases(draw):
     srv = []
     for j in range(draw(st.integers(0, 3))):
         if draw(st.booleans()):
-            wire = {"jsonrpc": "2.0", "method": "notifications/message", "params": {"level": "info", "data": f"n{j} é\U0001F600"}}
+            wire = {"jsonrpc": "2.0", "method": "notifications/message", "params": {"level": "info", "data": f"n{j} é\U0001F600" + draw(st.sampled_from(["", "", "\u2028x", "\u0085y\u2029", "\x0c"]))}}
         else:
             wire = {"jsonrpc": "2.0", "id": f"srv-{j}", "method": "roots/list"}
         srv.append({"dt": draw(st.sampled_from([0.0, 0.01, 0.1])), "wire": wire})
@@ -461,7 +461,7 @@ def job_matrix(col: Collector, seed: int, tier: str, shard: int, nshards: int) -
                         if k == "delayed":
                             est["delay"] = d
                         case = {"est": est, "timeout": 2.0, "requests": [{"id": rid, "mode": mode, "delta": 0.01}],
-                                "server_msgs": [{"dt": 0.0, "wire": {"jsonrpc": "2.0", "method": "notifications/message", "params": {"level": "info", "data": "é"}}}],
+                                "server_msgs": [{"dt": 0.0, "wire": {"jsonrpc": "2.0", "method": "notifications/message", "params": {"level": "info", "data": "é\u2028\u0085"}}}],
                                 "cuts": [3, 17, 40] if i % 2 else [], "exit": exit_path.rstrip("@"), "crlf": bool(i % 3 == 0)}
                         if exit_path == "cancel":
                             case["cancel_at"] = [None, 0.05, 0.31][i % 3]
